@@ -149,9 +149,10 @@ def S(ops, kind='opt', end='return'):
     return dict(form='cm', kind=kind, attempts=[dict(ops=ops, end=end)])
 
 
-def fork_scenario(ctx, provider, point, order):
-    """Run one fork scenario in a fresh thread; returns the merged event list (from the sink file)."""
-    sink_path = ctx.scratch.path('c36', 'ev-%s-%s-%s.ndjson' % (provider, point, order))
+def fork_scenario(ctx, provider, point, order, child_fault=None):
+    """Run one fork scenario in a fresh thread; returns the merged event list (from the sink file).
+    child_fault: DB-API call name; the child's first call of that kind after the fork fails (then it tries again)."""
+    sink_path = ctx.scratch.path('c36', 'ev-%s-%s-%s-%s.ndjson' % (provider, point, order, child_fault))
     sink = open(sink_path, 'w')
     if provider == 'sqlite':
         env = txnlib.Env(ctx.scratch, sink=sink, timeout=0.5)
@@ -175,6 +176,8 @@ def fork_scenario(ctx, provider, point, order):
             rec.nconn[2] = rec.nconn.get(1, 0)          # the child is a copy of the forking thread (PonyTxn.Fork):
             rec.nwrite[2] = rec.nwrite.get(1, 0)        # its counters continue, its ids are in its own range
             rec.closed[2] = []
+            if child_fault:
+                rec.fail_next = child_fault
             os.close(wr)
             if order == 'parent-first':
                 os.read(rd, 1)                  # wait until the parent has finished
@@ -190,6 +193,8 @@ def fork_scenario(ctx, provider, point, order):
 
     def after(reads_only=False):
         """What each process does after the fork point: a further session, then an observation of the database."""
+        if child_fault and state['child']:
+            env.run_session(S([['read']]))          # fails at the injected fault; the next session must still be clean
         env.run_session(S([['read']] if reads_only else [['read'], w2]))
         observe()
 
@@ -242,6 +247,11 @@ def fork_scenario(ctx, provider, point, order):
     evs = read_events(sink_path)
     env.close()
     return evs, err
+
+
+def trace_of(evs):
+    fails = [e for e in evs if e['ev'] == 'Db' and e['out'] == 'fail']
+    return dict(nthreads=1, faults=len(fails), fowner=fails[0]['a'] if fails else 1, evs=strip(evs))
 
 
 def read_events(path):
@@ -311,9 +321,13 @@ def run(ctx):
                 evs, err = fork_scenario(ctx, provider, point, order)
                 if err and point not in IN_SESSION_POINTS:
                     raise MachineryError('fork scenario %s/%s/%s failed in the harness: %r' % (provider, point, order, err))
-                nf = sum(1 for e in evs if e['ev'] == 'Db' and e['out'] == 'fail')
-                trace = dict(nthreads=1, faults=nf, fowner=1, evs=strip(evs))
-                items.append((dict(provider=provider, point=point, order=order), trace, evs))
+                items.append((dict(provider=provider, point=point, order=order), trace_of(evs), evs))
+        for point in ('idle', 'pooled'):
+            # the child's first connect after the fork fails, the child tries again
+            evs, err = fork_scenario(ctx, provider, point, 'child-first', child_fault='connect')
+            if err:
+                raise MachineryError('fork scenario %s/%s with a failing connect in the child failed: %r' % (provider, point, err))
+            items.append((dict(provider=provider, point=point, order='child-first', child_fault='connect'), trace_of(evs), evs))
     results = {}
     tstates = 0
     for provider in ('sqlite', 'generic'):
@@ -345,7 +359,7 @@ def run(ctx):
         if d['point'] in IN_SESSION_POINTS and bad and (foreign or (r['inv'] and r['inv'][1] == 'Atomic')):
             ctx.mismatch(sig_for(d['provider'], d['point']), what, replay=d)
         else:
-            ctx.mismatch('C36:%s:fork@%s:%s:%s' % (d['provider'], d['point'], d['order'],
+            ctx.mismatch('C36:%s:fork@%s:%s%s:%s' % (d['provider'], d['point'], d['order'], ':child-' + d['child_fault'] + '-fails' if d.get('child_fault') else '',
                                                   r['inv'][1] if r['inv'] else 'trace-rejected'), what, replay=d)
     ctx.coverage.update({
         'states': states, 'transitions': transitions, 'tlc_runs': mc,
@@ -361,7 +375,7 @@ def run(ctx):
 
 
 def replay(ctx, rep):
-    evs, err = fork_scenario(ctx, rep['provider'], rep['point'], rep['order'])
+    evs, err = fork_scenario(ctx, rep['provider'], rep['point'], rep['order'], rep.get('child_fault'))
     for i, e in enumerate(evs, 1):
         print('%3d %s' % (i, txnlib.brief(e)))
     bad = pid_check(evs)
